@@ -563,6 +563,8 @@ void MatrixDeleteRowAt(matrix *m, size_t row)
 {
   size_t i, j, k;
   matrix *c;
+  if(row >= m->row) /* nothing to delete */
+    return;
   NewMatrix(&c, m->row, m->col);
   MatrixCopy(m, &c);
   ResizeMatrix(m, c->row-1, c->col);
@@ -588,6 +590,8 @@ void MatrixDeleteColAt(matrix *m, size_t col)
 {
   size_t i, j, k;
   matrix *c;
+  if(col >= m->col) /* nothing to delete */
+    return;
   NewMatrix(&c, m->row, m->col);
   MatrixCopy(m, &c);
   ResizeMatrix(m, c->row, c->col-1);
